@@ -172,6 +172,40 @@ class Path:
 # z3 helpers
 
 
+class Abstract:
+    """Base class of abstract model values (contracts/worklist, textmodel):
+    an operation the model does not define is a gap of the model, never a
+    Python exception of the program under verification."""
+
+    def _gap(self, what):
+        raise Unsupported(f'{type(self).__name__} does not model {what}')
+
+    def __getitem__(self, k):
+        self._gap('indexing')
+
+    def __setitem__(self, k, v):
+        self._gap('item assignment')
+
+    def __iter__(self):
+        self._gap('iteration')
+
+    def __len__(self):
+        self._gap('len()')
+
+    def __contains__(self, x):
+        self._gap('membership')
+
+    def __add__(self, o):
+        self._gap('+')
+
+    __radd__ = __mul__ = __rmul__ = __add__
+
+    def __getattr__(self, name):
+        if name.startswith('__') and name.endswith('__'):
+            raise AttributeError(name)
+        self._gap(f'attribute {name!r}')
+
+
 def has_quantifier(z, _seen=None):
     seen = set() if _seen is None else _seen
     todo = [z]
